@@ -95,10 +95,10 @@ class LayoutShape(PipeShape):
         P = lambda p: p in props  # noqa
         obl = []
         first = props[0]
-        if out.kind == 'exc':
-            return [(f'{first}.no_crash', z3.BoolVal(False))]
-        if out.kind == 'exit':
-            just = z3.Or(z3.Not(ref.strictly_legal()), ref.overlap(include_muted=True))
+        if out.kind == 'exc' and out.msg.split(':')[0] in ('TypeError', 'AttributeError', 'NameError', 'HarnessError'):
+            raise E.HarnessError(f'unexpected exception inside the run: {out.msg}')
+        if out.kind in ('exit', 'exc'):
+            just = z3.Or(z3.Not(ref.strictly_legal()), ref.overlap(include_muted=True), *ref.must_reject)
             obl.append((f'{first}.rejection_is_justified_by_zone_bounds_or_overlap', just))
             if P('C14'):
                 obl.append(('C14.no_image_when_assembly_fails', z3.BoolVal(out.opens == 0 and out.image is None)))
@@ -106,6 +106,8 @@ class LayoutShape(PipeShape):
         # accepted ------------------------------------------------------------------------------
         if P('C05'):
             obl.append(('C05.accepted_implies_every_byte_inside_its_zone_and_GLOBAL', ref.bytes_inside()))
+            obl.append(('C05.accepted_implies_zone_declarations_are_valid',
+                        z3.Not(z3.Or(*ref.must_reject)) if ref.must_reject else z3.BoolVal(True)))
         if P('C04'):
             obl.append(('C04.accepted_implies_no_two_lines_share_an_address', z3.Not(ref.overlap())))
         if P('C02') or P('C05'):
